@@ -169,125 +169,182 @@ def rule_ctor(ctx, R):
 
 
 # ---------------------------------------------------------------------------------------------- SIGN
-def classify_path(seq):
-    """(p1, p2, core, flip) of one path of add/sub"""
-    p1 = p2 = None
-    core = None
-    flipcond = None
-    minus = False
-    for e in seq:
-        if e.startswith("BR[P1.pos]="):
-            p1 = int(e[-1])
-        elif e.startswith("BR[P2.pos]="):
-            p2 = int(e[-1])
-        elif e.startswith("BigNum::add_core(") or e.startswith("BigNum::sub_core("):
-            core = e
-        elif e.startswith("BR[") and ".1" in e:
-            flipcond = e
-        elif e.startswith("BigNum::minus("):
-            minus = True
-    return p1, p2, core, flipcond, minus
+# Truth tables by path enumeration with finite-domain evaluation of the branch conditions: for every
+# assignment of the boolean atoms (sign flags, "swapped", magnitude comparisons, zero tests) exactly one
+# path of the function is feasible; what that path does is compared with the arithmetic of signed
+# magnitudes.  The shape of the decision tree (nested ifs, match on a tuple, helper functions) is irrelevant.
+import itertools
+from .evalo import ev as evalo, Unknown
+from .paths import acyclic_paths as _acyclic, PathOriginsOv as _PO, simplify as _simp
+from .p_c09 import path_preds
+
+A_P1 = lambda o: o == ("field", "pos", ("arg", 1))
+A_P2 = lambda o: o == ("field", "pos", ("arg", 2))
+A_SW = lambda o: o[0] == "field" and o[1] == "1" and o[2][0] == "call" and o[2][1] == B + "sub_core"
+A_L12 = lambda o: o[0] == "call" and o[1] == B + "less_core" and o[2] == (("field", "val", ("arg", 1)), ("field", "val", ("arg", 2)))
+A_L21 = lambda o: o[0] == "call" and o[1] == B + "less_core" and o[2] == (("field", "val", ("arg", 2)), ("field", "val", ("arg", 1)))
+A_Z1 = lambda o: o[0] == "call" and o[1] == B + "is_zero" and o[2] == (("arg", 1),)
+A_Z2 = lambda o: o[0] == "call" and o[1] == B + "is_zero" and o[2] == (("arg", 2),)
+A_EQ = lambda o: o[0] == "call" and o[1] == "core::cmp::PartialEq::eq" and set(o[2]) == {("arg", 1), ("arg", 2)}
+A_VEQ = lambda o: o[0] == "call" and o[1] == "core::cmp::PartialEq::eq" and set(o[2]) == {("field", "val", ("arg", 1)), ("field", "val", ("arg", 2))}
 
 
-ADD_TABLE = {(1, 1): ("add_core", "never"), (1, 0): ("sub_core", "swapped"), (0, 1): ("sub_core", "!swapped"), (0, 0): ("add_core", "always")}
-SUB_TABLE = {(1, 0): ("add_core", "never"), (1, 1): ("sub_core", "swapped"), (0, 0): ("sub_core", "!swapped"), (0, 1): ("add_core", "always")}
+def decision_table(fb, name, atoms, describe):
+    """{assignment tuple -> set of outcomes}; describe(body, org, path, roles) -> hashable outcome"""
+    b = fb.bodies.get(name)
+    if b is None:
+        return None, None
+    cfg = normal_cfg(b)
+    rows = {}
+    paths = []
+    for p in _acyclic(cfg, 0, cfg.returns, 20000):
+        org = _PO(b, fb, p)
+        preds = path_preds(b, org, p)
+        paths.append((p, org, preds))
+    for vals in itertools.product((0, 1), repeat=len(atoms)):
+        env = [(m, v) for m, v in zip(atoms, vals)]
+        outs = set()
+        for p, org, preds in paths:
+            try:
+                ok = all(bool(evalo(_simp(c), env, fb, b)) == t for c, t, _ in preds)
+            except Unknown as e:
+                outs.add(("unknown-condition", show(e.args[0], b)[:80]))
+                continue
+            if ok:
+                roles = Roles(b, fb, param_roles=PR(b), org=org)
+                outs.add(describe(b, org, p, roles, env))
+        rows[vals] = outs
+    return b, rows
 
 
-def check_addsub(R, fb, name, table):
-    b, paths = fn_paths(fb, name)
-    if not R.anchor(b is not None, name, name):
-        return
-    R.analyse(name)
-    got = {}
-    for seq, p in paths:
-        p1, p2, core, fc, minus = classify_path(seq)
-        if p1 is None or p2 is None or core is None:
-            R.fail(name + ":path", "a path of %s does not test both sign flags or calls no magnitude routine: %s" % (name, list(seq)[:8]), b.span)
-            continue
-        cname = "add_core" if "add_core" in core else "sub_core"
-        order_ok = core.endswith("(P1.val,P2.val)")
-        if fc is None:
-            flip = "always" if minus else "never"
-        else:
-            pos = "NOT(" not in fc
-            val = int(fc[-1])
-            # (swapped)=1 with minus / (swapped)=0 without minus  => flip iff swapped
-            if (val == 1) == minus:
-                flip = "swapped" if pos else "!swapped"
-            else:
-                flip = "!swapped" if pos else "swapped"
-        got.setdefault((p1, p2), set()).add((cname, flip, order_ok))
-        # normalisation on every path
-        if not any(e.startswith("BigNum::from_vec(") for e in seq):
-            R.fail(name + ":norm:%d%d" % (p1, p2), "result of %s does not pass through the normalising constructor on the path signs=(%d,%d)" % (name, p1, p2), b.span)
-    for sp, (cname, flip) in sorted(table.items()):
-        g = got.get(sp, set())
-        ok = g == {(cname, flip, True)}
-        R.check(ok, "%s:signs%d%d" % (name, sp[0], sp[1]), "%s with signs (lhs %s, rhs %s): magnitude routine %s(lhs,rhs), result negated %s" % (name.rsplit("::", 1)[-1], "+-"[1 - sp[0]], "+-"[1 - sp[1]], cname, flip), b.span, sorted(g))
+def _calls_on(b, fb, p, roles):
+    out = []
+    for bi in p:
+        t = b.blocks[bi]["term"]
+        if t["k"] == "call" and not b.blocks[bi]["cleanup"]:
+            n = callee_name(t["f"], fb)
+            if n.startswith(B) and n.rsplit("::", 1)[-1] in ("add_core", "sub_core", "mult_core", "div_core", "minus", "from_vec", "shrink_to_fit"):
+                out.append((n.rsplit("::", 1)[-1], tuple(roles.of_operand(a, bi) for a in t["args"])))
+    return out
+
+
+def _describe_arith(b, org, p, roles, env):
+    calls = _calls_on(b, b_fb[0], p, roles)
+    core = [c for c in calls if c[0].endswith("_core")]
+    return (tuple(core), sum(1 for c in calls if c[0] == "minus") % 2, any(c[0] == "from_vec" for c in calls))
+
+
+b_fb = [None]
 
 
 def rule_sign(ctx, R):
     fb = ctx.fb
-    check_addsub(R, fb, B + "add", ADD_TABLE)
-    check_addsub(R, fb, B + "sub", SUB_TABLE)
-    for name, core in ((B + "mul", "mult_core"), (B + "div", "div_core")):
-        b, paths = fn_paths(fb, name)
+    b_fb[0] = fb
+    V = ("P1.val", "P2.val")
+    # ---- add / sub : rows over (lhs.pos, rhs.pos, swapped)
+    for name, table in ((B + "add", lambda p1, p2, sw: ("add_core", 0) if p1 and p2 else ("sub_core", sw) if p1 and not p2 else ("sub_core", 1 - sw) if p2 else ("add_core", 1)),
+                        (B + "sub", lambda p1, p2, sw: ("add_core", 0) if p1 and not p2 else ("sub_core", sw) if p1 and p2 else ("sub_core", 1 - sw) if not p2 else ("add_core", 1))):
+        b, rows = decision_table(fb, name, [A_P1, A_P2, A_SW], _describe_arith)
         if not R.anchor(b is not None, name, name):
             continue
         R.analyse(name)
-        seqs = {s for s, _ in paths}
-        c = "BigNum::%s(P1.val,P2.val)" % core
-        fv = "BigNum::from_vec(%s)" % c
-        want = {(c, fv, "BR[(P1.pos BitXor P2.pos)]=0", "RET(%s)" % fv), (c, fv, "BR[(P1.pos BitXor P2.pos)]=1", "BigNum::minus(%s)" % fv, "RET(%s)" % fv)}
-        want2 = {tuple(x.replace("(P1.pos BitXor P2.pos)", "(P2.pos BitXor P1.pos)") for x in w) for w in want}
-        R.check(seqs == want or seqs == want2, name + ":sign", "%s: magnitude routine %s(lhs,rhs), normalised, negated iff exactly one operand is negative (through minus(), which keeps zero non-negative)" % (name.rsplit("::", 1)[-1], core), b.span, sorted(seqs))
-    # partial_cmp
+        for (p1, p2), grp in itertools.groupby(sorted(rows), key=lambda v: v[:2]):
+            bad = []
+            for vals in grp:
+                core, flip = table(*vals)
+                want = {(((core, V),), flip, True)}
+                if rows[vals] != want:
+                    bad.append((vals, sorted(map(str, rows[vals]))))
+            core, _ = table(p1, p2, 0)
+            R.check(not bad, "%s:signs%d%d" % (name, p1, p2), "%s with signs (lhs %s, rhs %s): exactly one feasible path; it calls %s(lhs,rhs), normalises, and negates the result %s" % (name.rsplit("::", 1)[-1], "+-"[1 - p1], "+-"[1 - p2], core, {("add_core", 0): "never", ("add_core", 1): "always"}.get(table(p1, p2, 0), "iff swapped" if table(p1, p2, 1)[1] == 1 else "iff not swapped")), b.span, bad[:2])
+    # ---- mul / div
+    for name, core in ((B + "mul", "mult_core"), (B + "div", "div_core")):
+        b, rows = decision_table(fb, name, [A_P1, A_P2], _describe_arith)
+        if not R.anchor(b is not None, name, name):
+            continue
+        R.analyse(name)
+        bad = [(v, sorted(map(str, o))) for v, o in rows.items() if o != {(((core, V),), v[0] ^ v[1], True)}]
+        R.check(not bad, name + ":sign", "%s: magnitude routine %s(lhs,rhs), normalised, negated iff exactly one operand is negative (through minus(), which keeps zero non-negative)" % (name.rsplit("::", 1)[-1], core), b.span, bad[:2])
+    # ---- partial_cmp : rows over (eq, p1, p2, less(l,r), less(r,l))
     name = "<number::big_number::BigNum as core::cmp::PartialOrd>::partial_cmp"
-    b, paths = fn_paths(fb, name)
+
+    def d_cmp(b, org, p, roles, env):
+        rets = []
+        for bi in p:
+            for si, s in enumerate(b.blocks[bi]["stmts"]):
+                if s["k"] == "assign" and s["p"]["l"] == 0 and not s["p"]["proj"]:
+                    rets.append(roles.of_origin(org.of_rvalue(s["r"], bi, si)))
+        return tuple(rets[-1:])
+
+    b, rows = decision_table(fb, name, [A_EQ, A_P1, A_P2, A_L12, A_L21], d_cmp)
     if R.anchor(b is not None, name, "BigNum::partial_cmp"):
         R.analyse(name)
-        seqs = {s for s, _ in paths}
-        E = "PartialEq::eq(P1,P2)"
-        L = lambda a, b_: "BigNum::less_core(%s.val,%s.val)" % (a, b_)
-        SL, SG, SE = "RET(Option::Some{Ordering::Less{}})", "RET(Option::Some{Ordering::Greater{}})", "RET(Option::Some{Ordering::Equal{}})"
-        want = {
-            (E, "BR[%s]=1" % E, SE),
-            (E, "BR[%s]=0" % E, "BR[P1.pos]=1", "BR[P2.pos]=1", L("P1", "P2"), "BR[%s]=1" % L("P1", "P2"), SL),
-            (E, "BR[%s]=0" % E, "BR[P1.pos]=1", "BR[P2.pos]=1", L("P1", "P2"), "BR[%s]=0" % L("P1", "P2"), SG),
-            (E, "BR[%s]=0" % E, "BR[P1.pos]=1", "BR[P2.pos]=0", SG),
-            (E, "BR[%s]=0" % E, "BR[P1.pos]=0", "BR[P2.pos]=1", SL),
-            (E, "BR[%s]=0" % E, "BR[P1.pos]=0", "BR[P2.pos]=0", L("P2", "P1"), "BR[%s]=1" % L("P2", "P1"), SL),
-            (E, "BR[%s]=0" % E, "BR[P1.pos]=0", "BR[P2.pos]=0", L("P2", "P1"), "BR[%s]=0" % L("P2", "P1"), SG),
-        }
-        R.check(seqs == want, name + ":table", "ordering: equal first; both non-negative -> |a|<|b|; a>=0>b -> Greater; a<0<=b -> Less; both negative -> |b|<|a|", b.span, sorted(seqs - want)[:3] + ["missing:"] + sorted(want - seqs)[:3])
-    # eq
+        S = lambda x: ("Option::Some{Ordering::%s{}}" % x,)
+        bad = []
+        for (e, p1, p2, l12, l21), outs in rows.items():
+            if e:
+                want = S("Equal")
+            elif p1 and p2:
+                want = S("Less") if l12 else S("Greater")
+            elif p1 and not p2:
+                want = S("Greater")
+            elif p2:
+                want = S("Less")
+            else:
+                want = S("Less") if l21 else S("Greater")
+            if outs != {want}:
+                bad.append(((e, p1, p2, l12, l21), sorted(map(str, outs))))
+        R.check(not bad, name + ":table", "ordering: equal first; both non-negative -> |a|<|b|; a>=0>b -> Greater; a<0<=b -> Less; both negative -> |b|<|a| (32 rows, one feasible path each)", b.span, bad[:3])
+    # ---- eq : rows over (zero(l), zero(r), l.pos, r.pos, limbs equal)
     name = "<number::big_number::BigNum as core::cmp::PartialEq>::eq"
-    b = fb.bodies.get(name)
+
+    def d_bool(b, org, p, roles, env):
+        last = p[-1]
+        try:
+            return ("ret", int(bool(evalo(_simp(org.of_local(0, last, "t")), env, fb, b))))
+        except Unknown as e:
+            return ("unknown-result", show(e.args[0], b)[:80])
+
+    b, rows = decision_table(fb, name, [A_Z1, A_Z2, A_P1, A_P2, A_VEQ], d_bool)
     if R.anchor(b is not None, name, "BigNum::eq"):
         R.analyse(name)
-        cfg = normal_cfg(b)
-        ev = Events(b, fb, roles=Roles(b, fb, param_roles=PR(b)), epsilon={B + "is_zero", "core::cmp::PartialEq::eq"} | EPS)
-        d = language(b, fb, cfg, 0, cfg.returns, ev, stop_at_exit=False)
-        Z1, Z2 = "BR[BigNum::is_zero(P1)]", "BR[BigNum::is_zero(P2)]"
-        tail = Alt(Seq("EQ[P1.pos,P2.pos]=0", "RET(K0)"), Seq("EQ[P1.pos,P2.pos]=1", "RET(PartialEq::eq(P1.val,P2.val))"))
-        spec = Alt(Seq(Z1 + "=1", Z2 + "=1", "RET(K1)"), Seq(Z1 + "=0", tail), Seq(Z1 + "=1", Z2 + "=0", tail))
-        p_c01.check_lang(R, name + ":language", "equality: both zero, or same sign and same limbs", d, spec, b.span)
-    # neg / minus keep zero non-negative
-    b, paths = fn_paths(fb, B + "neg")
+        bad = [(v, sorted(map(str, o))) for v, o in rows.items() if o != {("ret", int((v[0] and v[1]) or (v[2] == v[3] and v[4])))}]
+        R.check(not bad, name + ":table", "equality: both zero, or same sign and same limbs (32 rows)", b.span, bad[:3])
+    # ---- neg / minus keep zero non-negative
+    def d_neg(b, org, p, roles, env):
+        last = p[-1]
+        o = _simp(org.of_local(0, last, "t"))
+        if o[0] == "agg" and len(o[2]) == 2:
+            try:
+                return ("pos", int(bool(evalo(_simp(o[2][0]), env, fb, b))), roles.of_origin(o[2][1]))
+            except Unknown as e:
+                return ("unknown", show(e.args[0], b)[:60])
+        return ("shape", roles.of_origin(o)[:60])
+
+    b, rows = decision_table(fb, B + "neg", [A_Z1, A_P1], d_neg)
     if R.anchor(b is not None, "neg", "BigNum::neg"):
         R.analyse(b.name)
-        seqs = {s for s, _ in paths}
-        Z = "BigNum::is_zero(P1)"
-        want = {(Z, "BR[%s]=1" % Z, "RET(BigNum::BigNum{P1.pos,COPY(P1.val)})"), (Z, "BR[%s]=0" % Z, "RET(BigNum::BigNum{Not(P1.pos),COPY(P1.val)})")}
-        R.check(seqs == want, "neg:table", "negation flips the sign flag unless the value is zero; limbs copied", b.span, sorted(seqs))
-    b, paths = fn_paths(fb, B + "minus", set_events=True)
+        bad = [(v, sorted(map(str, o))) for v, o in rows.items() if o != {("pos", v[1] if v[0] else 1 - v[1], "COPY(P1.val)")}]
+        R.check(not bad, "neg:table", "negation flips the sign flag unless the value is zero; limbs copied", b.span, bad[:2])
+
+    def d_minus(b, org, p, roles, env):
+        sets = []
+        for bi in p:
+            for si, s in enumerate(b.blocks[bi]["stmts"]):
+                if s["k"] == "assign" and "deref" in s["p"]["proj"]:
+                    dst = roles.of_origin(org.of_place(s["p"], bi, si))
+                    try:
+                        sets.append((dst, int(bool(evalo(_simp(org.of_rvalue(s["r"], bi, si)), env, fb, b)))))
+                    except Unknown as e:
+                        sets.append((dst, "?"))
+        return tuple(sets)
+
+    b, rows = decision_table(fb, B + "minus", [A_Z1, A_P1], d_minus)
     if R.anchor(b is not None, "minus", "BigNum::minus"):
         R.analyse(b.name)
-        seqs = {s for s, _ in paths}
-        Z = "BigNum::is_zero(P1)"
-        want = {(Z, "BR[%s]=1" % Z, "RET(K'()')"), (Z, "BR[%s]=0" % Z, "SET(P1.pos,Not(P1.pos))", "RET(K'()')")}
-        R.check(seqs == want, "minus:table", "in-place negation flips the sign flag unless the value is zero", b.span, sorted(seqs))
-    # is_pos / is_zero / from_vec / zero / one
+        bad = [(v, sorted(map(str, o))) for v, o in rows.items() if o != ({()} if v[0] else {(("P1.pos", 1 - v[1]),)})]
+        R.check(not bad, "minus:table", "in-place negation flips the sign flag unless the value is zero", b.span, bad[:2])
+    # ---- from_vec / is_pos
     b, paths = fn_paths(fb, B + "from_vec")
     if R.anchor(b is not None, "from_vec", "BigNum::from_vec"):
         seqs = {s for s, _ in paths}
